@@ -194,6 +194,13 @@ def update (s : St) (ws : List String) : Option St :=
       let (sid, st) ← s1.store k
       pure (s1.setStore sid { st with fmtOK := false })
     else pure s1
+  | some "regrace" => do
+    -- n goroutines call Registry.AddCollection(same fresh name) concurrently: a sequence of atomic
+    -- `Registry.add` steps, so every one of them holds the same collection (registry_same_name_same_collection)
+    let k ← kvNat ws "col"
+    let n ← kvNat ws "n"
+    let s0 : St := { s with cols := (s.cols.filter (fun c => c.1 < k || c.1 ≥ k + n)) ++ (List.range n).map (fun i => (k + i, k)) }
+    pure (s0.setStore k { reg := true })
   | some "entry" => do
     let k ← kvNat ws "col"
     let (sid, st) ← s.store k
@@ -218,6 +225,12 @@ def step (s : St) (line : String) : St × String :=
   | some s' =>
     match ws.head? with
     | some "reset" | some "newcol" | some "entry" => (s', "ok")
+    | some "regrace" =>
+      -- the model: all callers get collection (Registry.add …).2, which the registry holds
+      let n := (kvNat ws "n").getD 0
+      let r1 := Registry.add [] [0]
+      let ids := (List.range n).map fun _ => (r1.1.add [0]).2
+      (s', s!"distinct={(r1.2 :: ids).eraseDups.length} held={b2s (lookup r1.1 [0] == some r1.2)}")
     | some "shape" | some "meth" =>
       match parseMethod ws with
       | some m => (s', s!"valid={b2s (isValidMethod m)}")
@@ -352,6 +365,10 @@ def specStep (s : St) (line : String) : St × String :=
       let o := parseObs obs
       match ws.head? with
       | some "reset" | some "newcol" | some "entry" => (s', "ok")
+      | some "regrace" =>
+        if o.panic then (s', "VIOLATION C13/escaping-panic " ++ op)
+        else if obs == "distinct=1 held=1" then (s', "ok")
+        else (s', s!"VIOLATION C13/registry-lost-collection concurrent AddCollection of one name: {obs} (want one object, held by the registry) :: {op}")
       | some "shape" | some "meth" =>
         match parseMethod ws with
         | some m =>
